@@ -6,7 +6,7 @@
    on every run).  Outcomes: DOk / DErr / DPanic (todo!, index, over-wide shift) / DUnbounded
    (a loop whose length is not bounded by the input).  The float conversions of the host are
    parameters; nothing here depends on them. *)
-From PV Require Import Base MachineInt VarintParams GenLoops Varint DataModel Schema SchemaConv Dyn JsonOf WireFormat VarintFacts DynFacts DynReenc.
+From PV Require Import Base MachineInt VarintParams GenLoops Varint DataModel Schema SchemaConv Dyn JsonOf WireFormat VarintFacts DynFacts DynReenc DynArmDecl GenDynArms DynArms DynArmFacts DynArmTotal.
 Open Scope N_scope.
 
 (* decoding never panics, whatever the schema, whatever the bytes; what it hands on to the
@@ -75,7 +75,27 @@ Example C18_reencode_refuted_duplicate_fields :
   ser s (JObj [([97], JInt 1)]) = DErr DynSerSchemaMismatch.
 Proof. repeat split; vm_compute; reflexivity. Qed.
 
+(* the scalar arms as read from the source (GenDynArms.v: postcard-dyn/src/ser.rs ser_named_type,
+   postcard-dyn/src/de.rs deserialize), interpreted statement by statement, reach no panic site:
+   on any JSON value for the encoder, on any byte string for the decoder; and the model's scalar
+   cases are exactly those arms (C17_scalar_arms_are_the_source) *)
+Theorem C18_encoder_arms_never_panic : forall int_to_f64 narrow p j r,
+  ser_prim_via_arms int_to_f64 narrow p j = Some r -> r <> DPanic.
+Proof. exact ser_arms_never_panic. Qed.
+Theorem C18_decoder_arms_never_panic : forall widen p bs r, bytes_ok bs ->
+  de_prim_via_arms widen p bs = Some r -> r <> DPanic.
+Proof. exact de_arms_never_panic. Qed.
+Theorem C18_decoder_arms_are_the_model : forall widen p bs,
+  match de_prim_via_arms widen p bs with
+  | Some r => de_prim widen p bs = r
+  | None => True
+  end.
+Proof. exact de_prim_is_source. Qed.
+
 Print Assumptions C18_decode_total.
 Print Assumptions C18_encode_total.
 Print Assumptions C18_private_reader.
 Print Assumptions C18_reencode.
+Print Assumptions C18_encoder_arms_never_panic.
+Print Assumptions C18_decoder_arms_never_panic.
+Print Assumptions C18_decoder_arms_are_the_model.
